@@ -10,41 +10,52 @@
 (*   OpenAndWrite     AlignmentFile(.., "wb") (creates / truncates the file) + write             *)
 (*   Write            write through the open handle                                              *)
 (*   EndPass          close all, `skip.update(done)`, start the next pass iff somebody waits      *)
-(* Variant "noskip" forgets `skip.update(done)` (mutation control: the invariants are not vacuous) *)
+(* Distinct tag values can sanitise (get_valid_filename, l.50) to the SAME file name ('plate 1',  *)
+(* 'plate_1'): fmap maps a raw value to its output file.  The code sanitises FIRST and keeps all  *)
+(* its bookkeeping (skip / waiting / output_handles) per file name, so colliding values share one *)
+(* handle and one pass.                                                                          *)
+(* Variant "noskip" forgets `skip.update(done)`; Variant "rawkey" (seeded change C19-r2m3) keeps   *)
+(* the bookkeeping per RAW value and sanitises only when building the path: colliding values get  *)
+(* separate handles / passes on one path and the later "wb" open destroys the earlier records.    *)
+(* (mutation controls: the invariants are not vacuous)                                           *)
 EXTENDS Integers, FiniteSets, Sequences, TLC, Util
 
 CONSTANTS NValues, MaxLen, MHs, Variant
 Values == 1 .. NValues
 
 VARIABLES recs,     \* tag value of every input record, 0 = record without the tag
+          fmap,     \* [Values -> Values]: output file of a raw value (canonical numbering of the collision classes)
           maxh, pass, i, handles, waiting, skip, phase,
-          out,      \* [Values -> Seq(record index)] content of the value's file
-          opened    \* [Values -> Nat] number of truncating opens of the value's file
-vars == <<recs, maxh, pass, i, handles, waiting, skip, phase, out, opened>>
+          out,      \* [files -> Seq(record index)] content of the output file
+          opened    \* [files -> Nat] number of truncating opens of the output file
+vars == <<recs, fmap, maxh, pass, i, handles, waiting, skip, phase, out, opened>>
 
 SeqsUpTo(S, n) == UNION { [1 .. k -> S] : k \in 0 .. n }
 
-Init == /\ recs \in SeqsUpTo(0 .. NValues, MaxLen) /\ maxh \in MHs
+Maps == { f \in [Values -> Values] : f[1] = 1 /\ \A x \in 2 .. NValues : f[x] <= MaxOf({ f[w] : w \in 1 .. (x - 1) }) + 1 }
+Init == /\ recs \in SeqsUpTo(0 .. NValues, MaxLen) /\ maxh \in MHs /\ fmap \in Maps
         /\ pass = 1 /\ i = 1 /\ handles = {} /\ waiting = {} /\ skip = {} /\ phase = "scan"
         /\ out = [v \in Values |-> <<>>] /\ opened = [v \in Values |-> 0]
 
 Scanning == phase = "scan" /\ i <= Len(recs)
-v == recs[i]
-Advance == i' = i + 1 /\ UNCHANGED <<recs, maxh, pass, skip, phase>>
+raw == recs[i]
+file == fmap[raw]
+v == IF Variant = "rawkey" THEN raw ELSE file        \* the key of skip / waiting / output_handles
+Advance == i' = i + 1 /\ UNCHANGED <<recs, fmap, maxh, pass, skip, phase>>
 
-SkipUntagged == Scanning /\ v = 0 /\ Advance /\ UNCHANGED <<handles, waiting, out, opened>>
-SkipDoneOrWaiting == Scanning /\ v # 0 /\ (v \in skip \/ v \in waiting) /\ Advance /\ UNCHANGED <<handles, waiting, out, opened>>
-Defer == /\ Scanning /\ v # 0 /\ v \notin skip /\ v \notin waiting /\ v \notin handles
+SkipUntagged == Scanning /\ raw = 0 /\ Advance /\ UNCHANGED <<handles, waiting, out, opened>>
+SkipDoneOrWaiting == Scanning /\ raw # 0 /\ (v \in skip \/ v \in waiting) /\ Advance /\ UNCHANGED <<handles, waiting, out, opened>>
+Defer == /\ Scanning /\ raw # 0 /\ v \notin skip /\ v \notin waiting /\ v \notin handles
          /\ Cardinality(handles) >= maxh
          /\ waiting' = waiting \cup {v} /\ Advance /\ UNCHANGED <<handles, out, opened>>
-OpenAndWrite == /\ Scanning /\ v # 0 /\ v \notin skip /\ v \notin waiting /\ v \notin handles
+OpenAndWrite == /\ Scanning /\ raw # 0 /\ v \notin skip /\ v \notin waiting /\ v \notin handles
                 /\ Cardinality(handles) < maxh
                 /\ handles' = handles \cup {v}
-                /\ out' = [out EXCEPT ![v] = <<i>>]            \* "wb": whatever the file held is gone
-                /\ opened' = [opened EXCEPT ![v] = @ + 1]
+                /\ out' = [out EXCEPT ![file] = <<i>>]         \* "wb": whatever the file held is gone
+                /\ opened' = [opened EXCEPT ![file] = @ + 1]
                 /\ Advance /\ UNCHANGED waiting
-Write == /\ Scanning /\ v # 0 /\ v \notin skip /\ v \notin waiting /\ v \in handles
-         /\ out' = [out EXCEPT ![v] = Append(@, i)]
+Write == /\ Scanning /\ raw # 0 /\ v \notin skip /\ v \notin waiting /\ v \in handles
+         /\ out' = [out EXCEPT ![file] = Append(@, i)]
          /\ Advance /\ UNCHANGED <<handles, waiting, opened>>
 EndPass == /\ phase = "scan" /\ i > Len(recs)
            /\ skip' = IF Variant = "noskip" THEN skip ELSE skip \cup handles
@@ -52,12 +63,13 @@ EndPass == /\ phase = "scan" /\ i > Len(recs)
            /\ IF waiting = {} THEN phase' = "done" /\ UNCHANGED <<pass, i>>
                               ELSE phase' = "scan" /\ pass' = pass + 1 /\ i' = 1
            /\ waiting' = {}
-           /\ UNCHANGED <<recs, maxh, out, opened>>
+           /\ UNCHANGED <<recs, fmap, maxh, out, opened>>
 
 Next == SkipUntagged \/ SkipDoneOrWaiting \/ Defer \/ OpenAndWrite \/ Write \/ EndPass
 Spec == Init /\ [][Next]_vars
 
-Expected(val) == SetToSortSeq({ k \in DOMAIN recs : recs[k] = val }, LAMBDA a, b : a < b)
+(* per OUTPUT FILE: exactly the records of all values mapping to it, in input order *)
+Expected(f) == SetToSortSeq({ k \in DOMAIN recs : recs[k] # 0 /\ fmap[recs[k]] = f }, LAMBDA a, b : a < b)
 Inv_C19_PassesComplete == phase = "done" => \A val \in Values : out[val] = Expected(val)
 Inv_C19_OpenOnce == \A val \in Values : opened[val] <= 1
 Inv_C19_HandleBound == Cardinality(handles) <= maxh
